@@ -107,9 +107,13 @@ func (s *c23setup) install(t fataler, corrupt []byte, bk int) {
 // with an empty L2 cache. It returns the error and, for Get, the handles.
 func (s *c23setup) probe(t fataler, op int, victim sop.UUID) (error, []sop.Handle) {
 	reg, _ := s.e.open(t)
+	if op == 5 {
+		reg.Close()
+		reg, _ = s.e.openRO(t)
+	}
 	defer reg.Close()
 	switch op {
-	case 0:
+	case 0, 5:
 		got, err := reg.Get(ctx, payloadID(victim))
 		var hs []sop.Handle
 		for _, p := range got {
@@ -132,7 +136,7 @@ func (s *c23setup) probe(t fataler, op int, victim sop.UUID) (error, []sop.Handl
 	}
 }
 
-var opNames = []string{"Get", "UpdateNoLocks", "Update", "Add", "Remove"}
+var opNames = []string{"Get", "UpdateNoLocks", "Update", "Add", "Remove", "Get(read-only registry)"}
 
 // oracle for one (corruption, backup, op) case.
 func (s *c23setup) judge(t fataler, what string, corrupt []byte, bk, op int, victim sop.UUID) (excluded bool) {
@@ -151,6 +155,12 @@ func (s *c23setup) judge(t fataler, what string, corrupt []byte, bk, op int, vic
 			}
 			if !bytes.Equal(after, s.older) {
 				t.Fatalf("%s / %s / Get: block not restored to the backup image", what, bkNames[bk])
+			}
+		} else if op == 5 {
+			// a read-only registry serves the backup's content and leaves the files alone
+			want := s.olderHs[victim]
+			if len(got) != 1 || got[0] != want {
+				t.Fatalf("%s / %s / Get through a read-only registry: got %+v, want the backup image's handle %+v", what, bkNames[bk], got, want)
 			}
 		} else if !crcOK(after) {
 			t.Fatalf("%s / %s / %s: block left with a bad checksum", what, bkNames[bk], opNames[op])
@@ -198,14 +208,14 @@ func TestC23_SingleBitFlips(t *testing.T) {
 		}
 		// with the finding listed the no-valid-backup states are counted as excluded, so the
 		// valid-backup state gets every other bit
-		combos := [][2]int{{k % 5, (k / 5) % 5}}
+		combos := [][2]int{{k % 5, (k / 5) % 6}}
 		if k%2 == 1 {
-			combos = [][2]int{{bkValidStale, (k / 2) % 5}}
+			combos = [][2]int{{bkValidStale, (k / 2) % 6}}
 		}
 		if stats.Tier() == "thorough" && bit%16 == 0 {
 			combos = nil
 			for b := 0; b < 5; b++ {
-				for o := 0; o < 5; o++ {
+				for o := 0; o < 6; o++ {
 					combos = append(combos, [2]int{b, o})
 				}
 			}
@@ -268,7 +278,7 @@ func TestC23_Bursts(t *testing.T) {
 			return // still valid (e.g. swapped identical/empty slots, all-zero): not a corruption
 		}
 		bk := rapid.IntRange(0, 4).Draw(t, "backup")
-		op := rapid.IntRange(0, 4).Draw(t, "op")
+		op := rapid.IntRange(0, 5).Draw(t, "op")
 		victim := s.ids[rapid.IntRange(0, n-1).Draw(t, "victim")]
 		if s.judge(t, kind, corrupt, bk, op, victim) {
 			rec.Case(fmt.Sprintf("%s n=%d %x %d %d", kind, n, crc32.ChecksumIEEE(corrupt), bk, op), false, "excludedKnownFinding")
